@@ -84,6 +84,8 @@ NOT_20 = ("Digest", "Certificate Length", "Cryptographic Parameters")
 TABLE_1X = [a for a in M.ATTR_SAMPLES if a[0] not in LISTS and a[0] != "Sensitive"]
 TABLE_20 = [a for a in TABLE_1X if not a[0].startswith("x-") and a[0] not in NOT_20
             and a[0] != "Operation Policy Name"]     # deprecated in 2.0: the library refuses to encode it
+RO_1X = [a for a in TABLE_1X if a[0] in RO_API]        # the read-only set, with sample values
+RO_20 = [a for a in TABLE_20 if a[0] in RO_API]
 ALL_NAMES = list(M.ATTR_NAMES)
 OTHER_KIND_CUR = [["Object Group", "g0"], ["Name", "n0"], ["Sensitive", False],
                   ["Application Specific Information", {"ns": "a", "data": "d0"}]]
@@ -461,6 +463,10 @@ def _key(sym, m):
     return "C15|%s|%s|%s|%s" % (sym, m["form"], _kindlabel(m["name"]), m["addr"])
 
 
+class SetupRefused(Exception):
+    """The server refused to register a generated object (not this property's business)."""
+
+
 def register_objects(srv, spec_objs):
     objs = []
     for i, o in enumerate(spec_objs):
@@ -478,7 +484,7 @@ def register_objects(srv, spec_objs):
         c = H.Client(srv, owner, None, OBS_V)
         r = c.one(F.register_item(otype, mask=o.get("mask"), label="c15-%d" % i, extra_attrs=extra))
         if r["status"] != "SUCCESS":
-            raise core.HarnessError("C15: registration failed: %r for %r" % (r, o))
+            raise SetupRefused("registration refused: %r for %r" % (r, o))
         objs.append({"uid": r["payload"]["uid"], "owner": owner, "otype": otype})
     return objs
 
@@ -500,7 +506,10 @@ def run_history(spec):
     try:
         if not spec.get("objects"):
             return [], False, ["empty"], {}
-        objs = register_objects(srv, spec["objects"])
+        try:
+            objs = register_objects(srv, spec["objects"])
+        except SetupRefused:
+            return [], False, ["setup:registration-refused"], {"histories:setup-refused": 1}
         snap = observe(srv, objs)
         for i, a in enumerate(snap["api"]):
             if a["attrs"] is None:
@@ -797,7 +806,7 @@ def replay(spec):
 _VERSIONS = [(1, 0), (1, 2), (1, 2), (1, 4), (1, 4), (2, 0), (2, 0), (2, 0), (2, 0)]
 _STEP_KINDS = (["attr"] * 14 + ["restart"] * 2 + ["activate", "revoke", "get", "getattrs"])
 _ATTR_CLASSES = (["Name"] * 5 + ["Object Group"] * 4 + ["Application Specific Information"] * 4
-                 + ["Sensitive"] * 3 + ["table"] * 6)
+                 + ["Sensitive"] * 3 + ["table"] * 4 + ["ro"] * 3)
 
 
 def _ix(draw):
@@ -816,11 +825,11 @@ def _item(draw, nobj, v):
     cls = draw(st.sampled_from(_ATTR_CLASSES))
     if tuple(v) < (2, 0):
         f = draw(st.sampled_from(["mod1", "del1"]))
-        if cls == "table":
+        if cls in ("table", "ro"):
             if f == "mod1":
-                a = draw(st.sampled_from(TABLE_1X))
+                a = draw(st.sampled_from(TABLE_1X if cls == "table" else RO_1X))
                 return {"f": f, "t": t, "name": a[0], "val": ["lit", a[1]], "ix": _ix(draw)}
-            n = draw(st.sampled_from(ALL_NAMES + [None]))
+            n = draw(st.sampled_from(ALL_NAMES + [None] if cls == "table" else RO_API))
             return {"f": f, "t": t, "name": n, "ix": _ix(draw)}
         ix = _ix(draw)
         if cls == "Sensitive" and draw(st.booleans()):
@@ -831,10 +840,10 @@ def _item(draw, nobj, v):
     # (a 2.0 DeleteAttribute with neither current attribute nor reference cannot be encoded by
     # the library; replay() still understands {"f": "del2none"})
     f = draw(st.sampled_from(["set2"] * 5 + ["mod2"] * 7 + ["del2cur"] * 4 + ["del2ref"] * 4))
-    if cls == "table":
+    if cls in ("table", "ro"):
         if f == "del2ref":
-            return {"f": f, "t": t, "name": draw(st.sampled_from(ALL_NAMES))}
-        a = draw(st.sampled_from(TABLE_20))
+            return {"f": f, "t": t, "name": draw(st.sampled_from(ALL_NAMES if cls == "table" else RO_API))}
+        a = draw(st.sampled_from(TABLE_20 if cls == "table" else RO_20))
         if f == "set2":
             return {"f": f, "t": t, "name": a[0], "val": ["lit", a[1]]}
         if f == "del2cur":
